@@ -34,7 +34,7 @@ fn registry(id: &str) -> Option<PropDef> {
     Some(match id {
         "C01" => PropDef {
             level: "exploration",
-            subs: vec![random::<c01::RoundTrip>()],
+            subs: vec![random::<c01::RoundTrip>(), random::<c01::RoundTripLarge>()],
             assumptions: vec![
                 "ring-role clause asserted only where the signed area is exactly computable (dyadic coordinates) and non-zero",
                 "shapes are built through public constructors honouring their documented preconditions (polyline parts >= 2 points, non-empty first ring/patch)",
@@ -42,17 +42,17 @@ fn registry(id: &str) -> Option<PropDef> {
         },
         "C02" => PropDef {
             level: "exploration",
-            subs: vec![random::<c02::WellFormed>()],
+            subs: vec![random::<c02::WellFormed>(), random::<c02::WellFormedLarge>()],
             assumptions: vec!["the strict decoder in vlib/refcodec.rs (written from the ESRI whitepaper, pinned to the third-party fixtures at start-up) is the reference"],
         },
         "C04" => PropDef {
             level: "exploration",
-            subs: vec![random::<c02::IndexAddresses>()],
+            subs: vec![random::<c02::IndexAddresses>(), random::<c02::IndexLarge>()],
             assumptions: vec!["record offsets come from the independent strict decoder"],
         },
         "C03" => PropDef {
             level: "exploration",
-            subs: vec![random::<c03::Foreign>()],
+            subs: vec![random::<c03::Foreign>(), random::<c03::ForeignLarge>()],
             assumptions: vec!["the reference encoder in vlib/refcodec.rs defines 'spec-conformant' (pinned to third-party fixtures at start-up)", "ring roles asserted only where the signed area is exactly computable and non-zero"],
         },
         "C14" => PropDef {
